@@ -28,6 +28,13 @@ def pool():
     P.append(dict(kind='desc', text="TERM NUM=300;\nE : E '+' T # plus (0 2)\n  | T # 0\n  ;\nT : NUM # 0 | '(' E ')' # 1 ;\n", strict=1,
                   inputs=[[300, 43, 300], [40, 300, 41], [300, 43], [43], [300, 45, 300]]))
     P.append(dict(kind='desc', text="S : 'a' S 'b' # n (1) | # - ;", strict=0, inputs=[[97, 97, 98, 98], [], [97, 98, 98], [99]]))
+    # names and codes that land in the first and in the last slot of the symbol tables (307 names, 211 codes): a definition
+    # over an earlier one must find the tables empty in every slot
+    g4 = {'terms': [('c', 0), ('d', 211), ('e', 210), ('f', 421), ('g', 422)],
+          'rules': [('S', ['c', 'S', 'd'], 'p', 0, [1]), ('S', ['e'], None, 0, [0]), ('S', ['f', 'g'], 'q', 0, [0, 1])]}
+    P.append(dict(kind='read', g=g4, strict=1, inputs=[[0, 210, 211], [421, 422], [0, 0, 210, 211, 211], [210, 210], [0, 211], [1]]))
+    P.append(dict(kind='desc', text="TERM SEP=210 c=0;\nL : L ',' I # l (0 2) | I # 0 ;\nI : SEP # 0 | c # 0 | 'a' ;\n", strict=1, codes=[210, 0, 44, 97],
+                  inputs=[[210, 44, 0], [0], [97, 44, 97, 44, 210], [44], [210, 210]]))
     # defective definitions (documented defects)
     bad = [
         {'terms': [('a', 1), ('a', 2)], 'rules': [('S', ['a'], None, 0, None)]},                       # 5 repeated term
@@ -99,7 +106,7 @@ class Hist:
             r = rng.random()
             if r < 0.25:
                 i = rng.randrange(6)
-                x = rng.choice([0, 1, 2, 3, -1, 7, 5, -100, 2 ** 31 - 1]) if i in (0, 1, 5) else rng.choice([0, 1, 1, 0, 2, -1])
+                x = rng.choice([0, 1, 2, 3, -1, 7, 5, -100, 2 ** 31 - 1]) if i in (0, 1, 5) else rng.choice([0, 1, 1, 0, 2, -1, 256, 1000, -1000, 512, 65536])
                 if i == 1:
                     x = rng.choice([0, 0, 0, 1, 2, 3, -1])    # debug levels (output goes to the discarded stderr)
                 if i == 5:
@@ -402,6 +409,26 @@ def run(pid, tier, seed, replay=None):
                 [o for o in ops if o['op'] == 'parse'][0]['rc'], k, rs, bs), rep)
         elif pid == 'C14' and canon_parse(p2) != canon_parse(b2):
             chk.violation(sig % 'parse', 'after a parse in which memory request %d failed the next parse differs from the same parse without the failure' % k, dict(rep, without_failure=b))
+    # the histories once more on the counting build: when every object and every tree has been freed the library holds
+    # as many blocks as before the first call (storage that is still reachable from its static variables is not a
+    # leak for LeakSanitizer, so it is counted here)
+    if pid == 'C14':
+        sub = H[:(400 if quick else 4000)]
+        ls = []
+        for h in sub:
+            L = list(h.lines)
+            ls.append('\n'.join([L[0], 'COUNTERS'] + L[1:-1] + ['COUNTERS', L[-1]]))
+        lres = yvlib.run_driver(exe_f, '\n'.join(ls)) if ls else []
+        nheld = 0
+        for h, r in zip(sub, lres):
+            cs = [o for o in r.get('ops', []) if o['op'] == 'counters']
+            if 'abort' in r or len(cs) < 2:
+                continue
+            nheld += 1
+            if cs[-1]['live'] != cs[0]['live']:
+                chk.violation('%s:held:%s' % (pid, ' ; '.join(h.lines[1:-1])[:1500]), 'after every object and tree of the history was freed the library holds %d block(s) more than before it' % (
+                    cs[-1]['live'] - cs[0]['live']), {'property': pid, 'history': h.lines, 'implementation': r})
+        stats['histories_checked_for_held_memory'] = nheld
     stats['fault_histories'] = len(fscript)
     stats['fault_histories_with_failure'] = nfail
     chk.cov['rule'] = ('random API histories (create/set/define by callbacks or text/parse/error code/free) over 1-3 live objects from a pool of %d good and defective '
